@@ -21,10 +21,10 @@ MUTANTS = [
     M("eml-binary-flag-ignored", EML, "        if is_binary:\n            if isinstance(payload, str):\n                data = base64.b64decode(payload)\n            else:\n                data = base64.b64decode(payload)\n        else:\n            if isinstance(payload, str):", "        if False:\n            data = b\"\"\n        else:\n            if isinstance(payload, str):", "C16-ATT"),
     M("addresses-decoded-before-split", MBOX, "    addresses = email.utils.getaddresses([addr_string])", "    addresses = email.utils.getaddresses([decode_header_value(addr_string)])", "C16-ORDER"),
     M("single-address-decoded-before-split", MBOX, "    name, address = email.utils.parseaddr(addr_string)", "    decoded = decode_header_value(addr_string)\n    name, address = email.utils.parseaddr(decoded)", "C16-ORDER"),
-    M("separator-needs-lf-blank-line", MBOX, "MBOX_FROM_PATTERN = re.compile(rb\"^From \\S+.*\\d{4}\\r?\\n\", re.MULTILINE)", "MBOX_FROM_PATTERN = re.compile(rb\"(?:\\A|(?<=\\n\\n))From \\S+.*\\d{4}\\r?\\n\")", "C16-SEP"),
-    M("separator-lf-only", MBOX, "MBOX_FROM_PATTERN = re.compile(rb\"^From \\S+.*\\d{4}\\r?\\n\", re.MULTILINE)", "MBOX_FROM_PATTERN = re.compile(rb\"^From \\S+.*\\d{4}\\n\", re.MULTILINE)", "C16-SEP"),
-    M("separator-not-anchored", MBOX, "MBOX_FROM_PATTERN = re.compile(rb\"^From \\S+.*\\d{4}\\r?\\n\", re.MULTILINE)", "MBOX_FROM_PATTERN = re.compile(rb\"From \\S+.*\\d{4}\\r?\\n\", re.MULTILINE)", "C16-SEP"),
-    M("separator-multiline-flag-dropped", MBOX, "MBOX_FROM_PATTERN = re.compile(rb\"^From \\S+.*\\d{4}\\r?\\n\", re.MULTILINE)", "MBOX_FROM_PATTERN = re.compile(rb\"^From \\S+.*\\d{4}\\r?\\n\")", "C16-SEP"),
+    M("separator-needs-lf-blank-line", MBOX, "MBOX_FROM_PATTERN = re.compile(rb\"^From \\S+[ \\t][^\\r\\n]*\\d{4}\\r?\\n\", re.MULTILINE)", "MBOX_FROM_PATTERN = re.compile(rb\"(?:\\A|(?<=\\n\\n))From \\S+[ \\t][^\\r\\n]*\\d{4}\\r?\\n\")", "C16-SEP"),
+    M("separator-lf-only", MBOX, "MBOX_FROM_PATTERN = re.compile(rb\"^From \\S+[ \\t][^\\r\\n]*\\d{4}\\r?\\n\", re.MULTILINE)", "MBOX_FROM_PATTERN = re.compile(rb\"^From \\S+[ \\t][^\\r\\n]*\\d{4}\\n\", re.MULTILINE)", "C16-SEP"),
+    M("separator-not-anchored", MBOX, "MBOX_FROM_PATTERN = re.compile(rb\"^From \\S+[ \\t][^\\r\\n]*\\d{4}\\r?\\n\", re.MULTILINE)", "MBOX_FROM_PATTERN = re.compile(rb\"From \\S+[ \\t][^\\r\\n]*\\d{4}\\r?\\n\", re.MULTILINE)", "C16-SEP"),
+    M("separator-multiline-flag-dropped", MBOX, "MBOX_FROM_PATTERN = re.compile(rb\"^From \\S+[ \\t][^\\r\\n]*\\d{4}\\r?\\n\", re.MULTILINE)", "MBOX_FROM_PATTERN = re.compile(rb\"^From \\S+[ \\t][^\\r\\n]*\\d{4}\\r?\\n\")", "C16-SEP"),
     M("route-mime-only", D, "            try:\n                extractor = get_extractor(attachment.filename)\n            except ExtractionFileFormatNotSupportedError:\n                file_type = MIME_TYPE_MAPPING.get(attachment.mime_type)\n                if not file_type:", "            if True:\n                file_type = MIME_TYPE_MAPPING.get(attachment.mime_type)\n                if not file_type:", "C16-ROUTE"),
     M("route-no-rewind-after", D, "            finally:\n                attachment.data.seek(0)\n\n    def get_full_text(self) -> str:\n        return _join_unit_text(self.iterate_units())\n\n    def get_metadata(self) -> EmailMetadata:", "            finally:\n                pass\n\n    def get_full_text(self) -> str:\n        return _join_unit_text(self.iterate_units())\n\n    def get_metadata(self) -> EmailMetadata:", "C16-ROUTE"),
     M("route-failure-aborts", D, "            except Exception as exc:\n                logger.debug(\n                    \"Failed to extract attachment: %s (mime=%s) error=%s\",\n                    attachment.filename,\n                    attachment.mime_type,\n                    exc,\n                )\n", "            except Exception as exc:\n                logger.debug(\n                    \"Failed to extract attachment: %s (mime=%s) error=%s\",\n                    attachment.filename,\n                    attachment.mime_type,\n                    exc,\n                )\n                raise\n", "C16-ROUTE"),
@@ -32,8 +32,8 @@ MUTANTS = [
 ]
 
 TWINS = [
-    T("separator-optional-cr-as-class", MBOX, "MBOX_FROM_PATTERN = re.compile(rb\"^From \\S+.*\\d{4}\\r?\\n\", re.MULTILINE)", "MBOX_FROM_PATTERN = re.compile(rb\"(?m)^From \\S+.*\\d{4}(?:\\r\\n|\\n)\")"),
-    T("separator-blank-line-aware-both-eols", MBOX, "MBOX_FROM_PATTERN = re.compile(rb\"^From \\S+.*\\d{4}\\r?\\n\", re.MULTILINE)", "MBOX_FROM_PATTERN = re.compile(rb\"(?:\\A|(?<=\\n\\n)|(?<=\\n\\r\\n))From \\S+.*\\d{4}\\r?\\n\")"),
+    T("separator-optional-cr-as-class", MBOX, "MBOX_FROM_PATTERN = re.compile(rb\"^From \\S+[ \\t][^\\r\\n]*\\d{4}\\r?\\n\", re.MULTILINE)", "MBOX_FROM_PATTERN = re.compile(rb\"(?m)^From \\S+[ \\t][^\\r\\n]*\\d{4}(?:\\r\\n|\\n)\")"),
+    T("separator-blank-line-aware-both-eols", MBOX, "MBOX_FROM_PATTERN = re.compile(rb\"^From \\S+[ \\t][^\\r\\n]*\\d{4}\\r?\\n\", re.MULTILINE)", "MBOX_FROM_PATTERN = re.compile(rb\"(?:\\A|(?<=\\n\\n)|(?<=\\n\\r\\n))From \\S+[ \\t][^\\r\\n]*\\d{4}\\r?\\n\")"),
     T("mbox-attachment-loop-names-swapped", MBOX, "        filename = part.get_filename()\n        content_disposition = str(part.get(\"Content-Disposition\", \"\"))\n", "        content_disposition = str(part.get(\"Content-Disposition\", \"\"))\n        filename = part.get_filename()\n"),
     T("addresses-name-decoded-in-loop-var", MBOX, "            result.append(EmailAddress(name=decode_header_value(name), address=addr))", "            decoded_name = decode_header_value(name)\n            result.append(EmailAddress(name=decoded_name, address=addr))"),
     T("attachment-default-name", EM, '        filename = attachment.get("filename") or "attachment"', '        filename = attachment.get("filename") or "unnamed"'),
